@@ -429,10 +429,20 @@ class VQueue:
     def __init__(self, sched, maxsize=0):
         self.s = sched
         self.q = collections.deque()
+        self.maxsize = maxsize
 
     def put(self, item, block=True, timeout=None):
         self.s.yield_point("queue.put")
+        if self.maxsize and self.maxsize > 0 and len(self.q) >= self.maxsize:
+            # a bounded queue: put() blocks while it is full, as queue.Queue does
+            if not block:
+                raise _queue.Full
+            if not self.s.block_until(lambda: len(self.q) < self.maxsize, timeout, "queue-full"):
+                raise _queue.Full
         self.q.append(item)
+
+    def full(self):
+        return bool(self.maxsize) and self.maxsize > 0 and len(self.q) >= self.maxsize
 
     def get(self, block=True, timeout=None):
         self.s.yield_point("queue.get")
